@@ -14,7 +14,7 @@ CLAIMS = {
 
  "C01": C("other", "must-pass-through pairing, def-use and guarded-by over alloc/free/page/segment code + module ownership",
           "C01: pop/push pairing with the used counter, list conservation, free-list extension bounded by the reserve computed from the page's own area, page free only when all-free, "
-          "span split/merge arithmetic and guards, byte units of slice back-pointers, flag-byte integrity, module-level ownership of bookkeeping fields. Also: page start and reported page size use one offset; heap migration moves every page queue.",
+          "span split/merge arithmetic and guards, byte units of slice back-pointers, flag-byte integrity, module-level ownership of bookkeeping fields. Also: page start and reported page size use one offset; heap migration moves every page queue; the commit/purge mask built for a slice range is exactly that range (all offsets/counts evaluated).",
           "Composition of these steps into `no overlap for every history` needs the inductive heap invariant and is not decided."),
  "C02": C("other", "atomic-protocol shape analysis over all CAS/RMW sites + field-effect analysis of the remote-free call graph",
           "C02: CAS-loop freshness at all retry loops, CAS result discipline (29 sites), effect separation of the cross-thread free (no owner-only page state touched), the "
@@ -34,11 +34,11 @@ CLAIMS = {
           "Boundedness of memory over time is not decided."),
  "C12": C("other", "result discipline of all indirect visitor calls + dominance + cursor pairing + table/arith checks",
           "C12: every queue walked with next saved before the callback, collect before inspect, visitor result honoured at all 6 sites, abandoned walk re-marks every fetched segment, "
-          "free-map sizing against the bin table and index/bit split, block cursor arithmetic.",
+          "free-map sizing against the bin table and index/bit split, block cursor arithmetic. Also: abandoned OS segments are appended at the tail while the cursor pops the head.",
           "Equality of the visited multiset with the live set for every history is not decided."),
  "C13": C("other", "orientation analysis of rounding (conservative vs liberal) + must-pass bracket of arena purges + def-use of masks",
           "C13 (second sentence only): purge rounds inwards / commit outwards at both levels with the right constant at every caller; purge mask ⊆ commit mask, cleared on commit; "
-          "commit before use; arena purge bracketed by an in-use claim and scheduled before release; live huge blocks only reset. Also: a claimed arena range with uncommitted blocks is committed as a whole before use.",
+          "commit before use; arena purge bracketed by an in-use claim and scheduled before release; live huge blocks only reset. Also: a claimed arena range with uncommitted blocks is committed as a whole before use; the segment commit mask is extended only after the OS accepted the commit and is built exactly for the range.",
           "The first sentence (all guarantees under every option combination) is a run-time matrix and NOT decided by this technique."),
  "C14": C("other", "CAS observed-clear/freshness conditions in bitmap.c + roll-back region analysis + claim/free agreement",
           "C14: bits or-ed in only after observed clear, all failure edges of the multi-field claim pass the roll-back, conditional undo of the initial field, bounded retry, "
@@ -71,7 +71,7 @@ CLAIMS = {
           "Does not enumerate fault positions; kernel behaviour assumed as documented."),
  "C09": C("other", "ordering (must-pass), never-after-publication, guarded adoption over CFG + call graph",
           "C09: thread-exit path shape, abandon order, nothing touched after a segment is published as abandoned, reclaim only after the atomic un-abandon (and sub-process check), "
-          "only heaps that may reclaim adopt pages, empty abandoned segments are released, forced-abandon pairing. Also: reclaim-on-free un-abandons only behind the sub-process test; draining never re-arms delayed free over NEVER.",
+          "only heaps that may reclaim adopt pages, empty abandoned segments are released, forced-abandon pairing. Also: reclaim-on-free un-abandons only behind the sub-process test; draining never re-arms delayed free over NEVER; every page leaving the abandoned state decrements the segment's abandoned count exactly once.",
           "Exclusivity of adoption over interleavings is a schedule property and not decided."),
  "C10": C("other", "guarded-by / ordering / who-may-call over heap delete, absorb, destroy",
           "C10: delete absorbs only into a compatible backing heap else abandons, unlink and reset default before mi_free(heap) as last access; absorb order; destroy only on no_reclaim "
